@@ -154,6 +154,39 @@ func checkC09(c *km.Ctx) {
 				sends = append(sends, sd)
 			}
 		})
+		decErrIdx := 1
+		if len(decrypts) == 0 {
+			// the decryption of the key files moved, whole, into a helper new to the tree that hands the
+			// plaintexts back with an error: inside it a failed decryption aborts, and its call takes the place
+			// of the decryption in what follows
+			for _, ci := range km.CallsIn(unseal) {
+				cl, isCall := ci.(*ssa.Call)
+				g := km.StaticCallee(ci.Common())
+				if !isCall || g == nil || len(g.Blocks) == 0 || !c.InModule(g) || c.P.IsRecorded(g) {
+					continue
+				}
+				res := g.Signature.Results()
+				if res.Len() < 2 || !isErrorType(res.At(res.Len()-1).Type()) {
+					continue
+				}
+				if n := checkErrorAborts(c, "R-C09-2", g, decryptName, 1, "key file that does not decrypt"); n > 0 {
+					// on success the first result is the first decryption's output
+					first := true
+					for _, rc := range s.RetCases(g) {
+						if !km.IsNilConst(rc.Results[len(rc.Results)-1]) {
+							continue
+						}
+						if dc, di := callRes(km.CellOrigin(km.Unwrap(rc.Results[0]))); dc == nil || di != 0 || km.CalleeFull(dc.Common()) != decryptName {
+							first = false
+						}
+					}
+					r.Add("R-C09-2", km.FuncName(g), "plaintext handed back", c.P.Pos(g.Pos()), "on success the first result is the output of the decryption of the primary key file", sprintf("%v", first), first)
+					decrypts = append(decrypts, cl)
+					decErrIdx = res.Len() - 1
+					break
+				}
+			}
+		}
 		if len(decrypts) == 0 || loadCall == nil || len(sends) == 0 {
 			r.AnchorLost("R-C09-2", "decrypt / load / ready-send sequence in unsealCA")
 		} else {
@@ -162,7 +195,7 @@ func checkC09(c *km.Ctx) {
 				okFail := true
 				for _, ref := range *d.Referrers() {
 					ex, isEx := ref.(*ssa.Extract)
-					if !isEx || ex.Index != 1 {
+					if !isEx || ex.Index != decErrIdx {
 						continue
 					}
 					for _, ref2 := range *ex.Referrers() {
@@ -179,7 +212,7 @@ func checkC09(c *km.Ctx) {
 				}
 				r.Add("R-C09-2", km.FuncName(unseal), "failed decryption cannot reach the load", posOf(c, d), "the err != nil edge of the decryption never reaches loadSignersFromPemData", sprintf("%v", okFail), okFail)
 			}
-			firstOK := primErrNilCall("first decrypt ok", decrypts[0], 1)
+			firstOK := primErrNilCall("first decrypt ok", decrypts[0], decErrIdx)
 			okLoad := c.F.At(loadCall).All(func(k km.Conj) bool { return s.Holds(k, firstOK) }) && held[loadCall][stateMutex]
 			// the plaintext handed to the loader is the decryption result
 			cl0, idx0 := callRes(km.Unwrap(loadCall.Common().Args[1]))
